@@ -38,8 +38,9 @@ inductive ActionSem where
   | valueFromStr (l : String)
   /-- `return strconv.Unquote(string(c.text))` -/
   | unquoteText
-  /-- code predicate `return false, errors.New(msg)` -/
-  | predErr (msg : String)
+  /-- code predicate `return false, errors.New(<string literal token>)`; the token is kept as
+      written (with its quotes), the driver unquotes it for display -/
+  | predErr (tok : String)
   | unknown
   deriving Repr, BEq, Inhabited, DecidableEq
 
